@@ -8,7 +8,7 @@ def run(rep, tier, seed, args):
     rep.rule = ('one case = one path of the real World.run() in which one simulator (enumerated) sends one malformed reply at a step ordinal chosen by '
                 'the solver (a symbolic index compared with the request counter), the malformed value itself symbolic (next step t+delta with delta <= 0 '
                 'unbounded; output time t-eps, eps >= 1 unbounded) or drawn from {1.5, "3", [3], None}; non-trivial = the malformed reply was actually sent on the path')
-    rep.bounds = {'simulators': '2 (thorough 3)', 'steps_per_simulator': 'K=2 quick (3 in same-time loops), K=3 thorough', 'until': 3, 'fault': 'exactly one malformed reply per run',
+    rep.bounds = {'simulators': '2 (thorough 3)', 'steps_per_simulator': 'K=3 (three-simulator topologies K=2)', 'until': 3, 'fault': 'exactly one malformed reply per run',
                   'outside': 'bool next-step values (not demanded to be rejected), several malformed replies, malformed data structures other than times'}
     rep.assumptions = list(sysrun.STUBS) + ['"identifies the simulator" is read as: the simulator id occurs in the exception text; "error" as any exception except an assert statement (which disappears under python -O)']
     rep.add_jobs(common.run_jobs(jobs))
